@@ -1,6 +1,9 @@
 package main
 
-import "strings"
+import (
+	"fmt"
+	"strings"
+)
 
 // curatedWorlds: hand-written worlds that always run first (shapes behind past defects and the
 // corner cases named in the properties).
@@ -93,6 +96,40 @@ func curatedWorlds() []wWorld {
 			fl.Msgs = append(fl.Msgs, m)
 		}
 		out = append(out, wWorld{Files: []wFile{fl}, Targets: []string{"len.proto"}})
+	}
+	return append(out, hubWorlds()...)
+}
+
+// hubWorlds: several files share their FIRST import (a hub with k transitive imports, k = 0..8)
+// and differ in their later ones - the shape on which results that alias a shared slice or a
+// memo of the hub's answer go wrong.
+func hubWorlds() []wWorld {
+	file := func(name, pkg string, deps ...string) wFile {
+		f := wFile{Name: name, Pkg: pkg, Syn: "proto3", Deps: append([]string{}, deps...), PublicDeps: []int{}, Enums: []wEnum{}, Msgs: []wMsg{}, Services: []wService{}, Exts: []wField{}, Locs: []wLoc{}}
+		f.Msgs = []wMsg{{Head: wMsgHead{Name: "M", Fields: []wField{}, Enums: []wEnum{}, Oneofs: []string{}, Exts: []wField{}}, Nested: []wMsg{}}}
+		return f
+	}
+	var out []wWorld
+	for k := 0; k <= 8; k++ {
+		var fs []wFile
+		var leaves []string
+		for i := 0; i < k; i++ {
+			n := fmt.Sprintf("hub_leaf%d.proto", i)
+			// half of the leaves form a chain, so that the hub has deep and shallow imports
+			if i > 0 && i%2 == 1 {
+				fs = append(fs, file(n, fmt.Sprintf("l%d", i), leaves[i-1]))
+			} else {
+				fs = append(fs, file(n, fmt.Sprintf("l%d", i)))
+			}
+			leaves = append(leaves, n)
+		}
+		fs = append(fs, file("hub.proto", "hub", leaves...))
+		fs = append(fs, file("hub_e1.proto", "e1"), file("hub_e2.proto", "e2"), file("hub_e3.proto", "e3"))
+		fs = append(fs, file("hub_p1.proto", "p1", "hub.proto", "hub_e1.proto"), file("hub_p2.proto", "p2", "hub.proto", "hub_e2.proto"),
+			file("hub_p3.proto", "p3", "hub.proto", "hub_e3.proto", "hub_e1.proto"), file("hub_p4.proto", "p4", "hub.proto"))
+		fs = append(fs, file("hub_top.proto", "top", "hub_p1.proto", "hub_p2.proto"))
+		// hub first in the file list for easy recognition
+		out = append(out, wWorld{Files: fs, Targets: []string{"hub_top.proto"}, Bidi: true})
 	}
 	return out
 }
